@@ -25,6 +25,22 @@ def get_op(name, params=()):
     return op
 
 
+EXPLICIT_SUBS = False
+
+
+class explicit_subs:
+    """within this context `sub` nodes are built with the Subs constructor, keeping the order of the pairs"""
+
+    def __enter__(self):
+        global EXPLICIT_SUBS
+        self.old = EXPLICIT_SUBS
+        EXPLICIT_SUBS = True
+
+    def __exit__(self, *a):
+        global EXPLICIT_SUBS
+        EXPLICIT_SUBS = self.old
+
+
 def build(ir):
     import funsor
     from funsor import ops
@@ -72,6 +88,10 @@ def build(ir):
     if k == "sub":
         _, e, subs = ir
         x = build(e)
+        if EXPLICIT_SUBS:
+            from funsor.terms import Subs
+
+            return Subs(x, tuple((n, build(v)) for n, v in subs))  # pairs kept in the order given (Funsor.__call__ re-orders them)
         return x(**{n: build(v) for n, v in subs})
     if k == "stack":
         return Stack(ir[1], tuple(build(p) for p in ir[2]))
